@@ -262,3 +262,30 @@ prop("C03", "exploration",
      [dict(name="c03_%s%d" % (tn, g), sources=["c03_geigs.cpp"], flavour="asan", flags=["-DC03_T=%s" % tt, "-DC03_GROUP=%d" % g], deps=SOLVER_DEPS)
       for tn, tt in (("d", "double"), ("f", "float"), ("ld", "long double")) for g in (0, 1)],
      assumptions=TRUST + ["the reference spectrum of the pencil comes from Eigen's GeneralizedSelfAdjointEigenSolver in double"])
+
+
+# ------------------------------------------------------------------------------------------ C04
+prop("C04", "exploration",
+     "17 solver configurations of the Arnoldi/Lanczos family, each on matrices / pencils whose spectrum is prescribed by construction (real spectra for the symmetric family, real values and conjugate "
+     "pairs for the general family; pencils B = LL', A = L Q D Q' L'), every selection rule the solver supports, nev 1..5, ncv = 2nev+1 + room with room classes tight (<10) / medium (10..19) / "
+     "roomy (>=20) / full (ncv = n), default start vector; the wanted k values are required to be separated from the rest by >= 0.5% of the spread in the rule's key applied to the iterated spectrum "
+     "(nu = 1/(lambda-sigma), lambda/(lambda-sigma), (lambda+sigma)/(lambda-sigma), the complex-shift map). When and only when info() == Successful, the sorted keys of the returned values must "
+     "equal those of the rule's top-k (ceil/floor split for BothEnds) within a quarter of the gap. Runs that do not converge are counted as inconclusive. Seeded exploration over the classes that are "
+     "sharp on the repaired tree + fixed corpus over the classes where implicit restart with early stopping misses sporadically. Non-trivial = a Successful run that restarted; distinct by parameters",
+     [dict(name="c04_g%d" % g, sources=["c04_select.cpp"], flavour="plain", flags=["-DZOO_GROUP=%d" % g], deps=ZOO_DEPS + ["common/fachook.hpp"]) for g in (0, 1, 2)],
+     assumptions=TRUST + ["the reference spectrum is the one the matrix was built from (rounding of the construction is far below the 0.5% gap)"])
+
+
+# ------------------------------------------------------------------------------------------ C11
+WRAP_DEPS = ["common/oracle.hpp", "common/wrapgen.hpp"]
+prop("C11", "exploration",
+     "registry of wrapper instantiations: the six product wrappers, the six shift-solve wrappers, Dense/SparseCholesky, SparseRegularInverse, each in every triangle x storage-order combination "
+     "(storage index int, and long on a subset), SymShiftInvert in all 64 combinations of {dense,sparse}^2 x {Lower,Upper}^2 x {ColMajor,RowMajor}^2 (+ long index), and the five composite operators of the "
+     "generalized solvers; float/double/long double (complex for the Hermitian products). For each instance and sizes 1, 2 and random n <= 30 (60 thorough): the wrapper receives the full matrix with the "
+     "triangle it is NOT told to read filled (a) with NaN and (b) with unrelated numbers - both outputs must be byte-identical and finite; perform_op / solve / triangular solves / operator* / "
+     "operator() are compared with a long-double dense reference (products: 100 n u ||A|| ||x||; solves: residual 100 n u (||F|| ||y|| + ||x||); Re[(A-sigma I)^-1 x] forward with the condition number; "
+     "composites against the explicitly formed operator); inputs also as Map, strided block and expression (temporary owned by the wrapper, under ASan). "
+     "An evaluation = one (instance, size); non-trivial = n >= 2; distinct by (instance, n, case)",
+     [dict(name="c11_w_%s" % tn, sources=["c11_wrappers.cpp"], flavour="asan", flags=["-DC11_T=%s" % tt], deps=WRAP_DEPS) for tn, tt in (("d", "double"), ("f", "float"), ("ld", "long double"))] +
+     [dict(name="c11_ssi_%s" % tn, sources=["c11_ssi.cpp"], flavour="asan", flags=["-DC11_T=%s" % tt], deps=WRAP_DEPS) for tn, tt in (("d", "double"), ("f", "float"))],
+     assumptions=TRUST + ["'all sizes' is sampled; instantiations that do not compile would be a build failure of the check, not a runtime verdict"])
